@@ -12,6 +12,7 @@ PROP = "C12"
 HERE = os.path.dirname(os.path.abspath(__file__))
 TZS = ["UTC", "Asia/Tokyo", "America/Los_Angeles", "Pacific/Kiritimati", "XYZ-14", "ABC+11:30", "Europe/London"]
 KNOBS = ["clock", "tz", "mtime", "heap", "pid", "tmpname", "stack"]
+TIMEOUT = 10
 TIME_MACROS = re.compile(r"__DATE__|__TIME__|__TIMESTAMP__")
 
 
@@ -172,10 +173,24 @@ def run_replica(sdir, reps, stage, e, infile, opts, src, wdir, stats):
     os.symlink(os.path.join(reps[stage], "chibicc"), link)
     if not os.path.lexists(os.path.join(wdir, "include")):
         os.symlink(os.path.join(src, "include"), os.path.join(wdir, "include"))
+    # a mutated input may make the front end loop or allocate without bound: 10 s wall / 4 GiB of output at most,
+    # and the whole process group (driver and cc1) is killed on expiry
+    po = subprocess.Popen(argv, cwd=wdir, env=env_vars(e, sdir, stats), stdin=subprocess.DEVNULL, stdout=subprocess.PIPE, stderr=subprocess.PIPE,
+                          start_new_session=True)
     try:
-        p = subprocess.run(argv, cwd=wdir, env=env_vars(e, sdir, stats), stdin=subprocess.DEVNULL, stdout=subprocess.PIPE, stderr=subprocess.PIPE, timeout=120)
+        so, se = po.communicate(timeout=TIMEOUT)
     except subprocess.TimeoutExpired:
+        try:
+            os.killpg(po.pid, 9)
+        except OSError:
+            pass
+        po.communicate()
         return {"status": "timeout", "stdout": b"", "stderr": b"", "out": None, "dep": None}
+
+    class P:
+        pass
+    p = P()
+    p.returncode, p.stdout, p.stderr = po.returncode, so, se
     # the assembler names its input, a temporary with a random name, in its own messages: not compiler output
     err = re.sub(rb"/tmp/chibicc-[A-Za-z0-9]{6}", b"/tmp/chibicc-TEMP", p.stderr)
     res = {"status": p.returncode, "stdout": p.stdout, "stderr": err, "out": None, "dep": None}
@@ -347,6 +362,27 @@ def worker(args):
     return out
 
 
+def det_worker(args):
+    (wid, sdir, reps, master, start, step, total) = args
+    src = os.path.join(sdir, "src")
+    wdir = os.path.join(sdir, "wd%d" % wid)
+    os.makedirs(wdir, exist_ok=True)
+    own, tests = list_inputs(src)
+    n = bad = 0
+    msgs = []
+    for k in range(start, total, step):
+        case = gen_case(mix(master ^ 0xDE7, k), src, own, tests)
+        infile, text = materialise(case, src, wdir)
+        a1 = run_replica(sdir, reps, case["a"], case["e1"], infile, case["opts"], src, wdir, None)
+        a2 = run_replica(sdir, reps, case["a"], case["e1"], infile, case["opts"], src, wdir, None)
+        n += 1
+        if diff_fields(a1, a2):
+            bad += 1
+            msgs.append("%s %s stage %d: %s" % (case["input"], " ".join(case["opts"]), case["a"], ",".join(diff_fields(a1, a2))))
+    shutil.rmtree(wdir, ignore_errors=True)
+    return n, bad, msgs
+
+
 def fixpoint(sdir, reps, src, rep, stats):
     """stage 1, 2 and 3 must emit identical assembly for every one of the compiler's own sources
     (stage-1 output is the code of stage 2, stage-2 output the code of stage 3: 'stage 2 equals stage 3')"""
@@ -413,6 +449,15 @@ def main(argv):
     seconds = 50 if tier == "quick" else 1100
     with mp.get_context("fork").Pool(NCPU) as pool:
         results = pool.map(worker, [(w, sdir, reps, master, w, NCPU, seconds) for w in range(NCPU)])
+    # determinism of the simulation itself: the same case evaluated twice gives byte-identical observations
+    det_n = 64 if tier == "quick" else 600
+    with mp.get_context("fork").Pool(NCPU) as pool:
+        det = pool.map(det_worker, [(w, sdir, reps, master, w, NCPU, det_n) for w in range(NCPU)])
+    stats["determinism_pairs"] = sum(d[0] for d in det)
+    stats["determinism_mismatches"] = sum(d[1] for d in det)
+    for d in det:
+        for t in d[2][:3]:
+            rep.harness_error("case did not repeat exactly: " + t)
     agg = {"runs": 0, "nontrivial": 0, "diagnosed": 0, "crashed": 0, "ok": 0, "held_time": 0, "mutated": 0, "timeouts": 0}
     sub, knob, shim, by_opt = {}, {}, {}, {}
     hashes, samples = set(), []
@@ -460,6 +505,7 @@ def main(argv):
         "fault_kinds_fired": {"environment_knob_differed_between_the_two_runs": knob, "time_held_equal_because_input_mentions_date_macros": agg["held_time"],
                               "shim_counters(all runs)": shim},
         "by_first_option": by_opt,
+        "determinism": {"cases_run_twice": stats.get("determinism_pairs", 0), "mismatches": stats.get("determinism_mismatches", 0)},
         "components": {"real": ["chibicc stage 1 (gcc-built), stage 2 (built by stage 1), stage 3 (built by stage 2) from the working tree", "GNU as for -c"],
                        "simulated": ["time()/clock_gettime()/gettimeofday()", "TZ", "input mtime", "malloc/calloc/realloc/free (arena base, padding, junk fill, poison on free, realloc always moves)",
                                      "getpid()", "mkstemp names", "stack offset (environment padding)", "ASLR switched off (setarch -R) so layout is a function of the seed"]},
